@@ -487,7 +487,7 @@ func c03ReuseScenario(x *mc.X) *mc.Outcome {
 func init() {
 	Register(&Prop{
 		ID:    "C03",
-		Rule:  "full product: leaf kind {String, Int, Int32, Int64, Float64, Float32, Bool, Time} × 49 input representations (Go native of every width, decimal/exponent/bool/time strings, unix seconds, JSON-typed float64, []byte, lists, maps) × coercer option {default, WithCoercer, global conf.Coercers override, WithCoercer applied through Ptr, Time.Format ×3 layouts, Time.FormatFunc} × placement {top, struct field, slice element, behind pointer, struct in slice, pre-allocated pointer field}; plus slices of length 0..3 in 5 representations; non-trivial = present input; distinct = distinct (kind, option, placement, input type, success)",
+		Rule:  "full product: leaf kind {String, Int, Int32, Int64, Float64, Float32, Bool, Time} × 49 input representations (Go native of every width, decimal/exponent/bool/time strings, unix seconds, JSON-typed float64, []byte, lists, maps) × coercer option {default, WithCoercer, global conf.Coercers override, WithCoercer applied through Ptr, Time.Format ×3 layouts, Time.FormatFunc} × placement {top, struct field, slice element, behind pointer, struct in slice, pre-allocated pointer field}; plus slices of length 0..3 in 5 representations; plus destination independence: every core case with one focus unit parsed into two differently pre-filled destinations (different sentinels, slices with spare capacity); non-trivial = present input; distinct = distinct (kind, option, placement, input type, success)",
 		Floor: 100,
 		Bound: func(tier string) string { return "full product (both tiers)" },
 		Assumptions: []string{
@@ -501,7 +501,148 @@ func init() {
 			}
 			items = append(items, Item{Name: "slices", MaxDevs: -1, Run: c03SliceScenario})
 			items = append(items, Item{Name: "slices-into-populated-destination", MaxDevs: -1, Run: c03ReuseScenario})
+			// destination independence over the core skeletons (any one unit over its full alphabet, all visit orders)
+			items = append(items, coreItems(tier, c03IndependenceScenario, nil, []int{0}, 1)...)
 			return items
 		},
 	})
+}
+
+// ---------------------------------------------------------------------------
+// destination independence over the core space: the result of Parse is a function of (schema, input),
+// not of what the destination held before. The same case is parsed into two differently pre-filled
+// destinations (different sentinel values; slices with 1 element vs 3 elements and spare capacity);
+// after replacing every leaf that still holds its own pre-fill by UNTOUCHED the two must be equal.
+
+func fillSentinelB(v reflect.Value, n *Node) {
+	switch n.Kind {
+	case KSlice:
+		s := reflect.MakeSlice(n.GoType(), 3, 8)
+		for i := 0; i < 3; i++ {
+			fillSentinelB(s.Index(i), n.Elem)
+		}
+		v.Set(s)
+	case KPtr:
+	case KStruct:
+		for _, f := range n.Fields {
+			fillSentinelB(v.FieldByName(goFieldName(f.Key)), f.N)
+		}
+		v.FieldByName("ZZextra").SetString("§extraB")
+	case KStr:
+		v.SetString("§B")
+	case KInt:
+		v.SetInt(-31337)
+	case KFloat:
+		v.SetFloat(-31337.25)
+	case KBool:
+		v.SetBool(true)
+	case KTime:
+		v.Set(reflect.ValueOf(tSentinl.AddDate(1, 1, 1)))
+	}
+}
+
+// cmpDest walks two destinations of the same case in parallel: every node is either untouched in both
+// (still holds its own pre-fill) or holds the same value in both.
+func cmpDest(n *Node, va, pa, vb, pb reflect.Value, path string, why *[]string) {
+	ua := pa.IsValid() && canonValue(va) == canonValue(pa)
+	ub := pb.IsValid() && canonValue(vb) == canonValue(pb)
+	if ua && ub {
+		return
+	}
+	zero := func(v reflect.Value) reflect.Value { return reflect.Zero(v.Type()) }
+	switch n.Kind {
+	case KPtr:
+		if va.IsNil() != vb.IsNil() {
+			*why = append(*why, fmt.Sprintf("%s: pointer nil in one destination only", path))
+			return
+		}
+		if va.IsNil() {
+			return
+		}
+		cmpDest(n.Elem, va.Elem(), zero(va.Elem()), vb.Elem(), zero(vb.Elem()), path, why)
+	case KStruct:
+		for _, f := range n.Fields {
+			name := goFieldName(f.Key)
+			fpa, fpb := reflect.Value{}, reflect.Value{}
+			if pa.IsValid() {
+				fpa = pa.FieldByName(name)
+			}
+			if pb.IsValid() {
+				fpb = pb.FieldByName(name)
+			}
+			cmpDest(f.N, va.FieldByName(name), fpa, vb.FieldByName(name), fpb, joinPath(path, f.Key), why)
+		}
+		ea, eb := va.FieldByName("ZZextra"), vb.FieldByName("ZZextra")
+		if pa.IsValid() && pb.IsValid() {
+			if (ea.String() == pa.FieldByName("ZZextra").String()) != (eb.String() == pb.FieldByName("ZZextra").String()) {
+				*why = append(*why, path+".ZZextra written in one destination only")
+			}
+		}
+	case KSlice:
+		if ua != ub {
+			// one destination kept its pre-fill, the other was written
+			if !(canonValue(va) == canonValue(vb)) {
+				*why = append(*why, fmt.Sprintf("%s: %s vs %s", path, canonValue(va), canonValue(vb)))
+			}
+			return
+		}
+		if va.Len() != vb.Len() {
+			*why = append(*why, fmt.Sprintf("%s: length %d vs %d", path, va.Len(), vb.Len()))
+			return
+		}
+		for i := 0; i < va.Len(); i++ {
+			// elements of a written slice have no pre-fill of their own
+			cmpDest(n.Elem, va.Index(i), reflect.Value{}, vb.Index(i), reflect.Value{}, fmt.Sprintf("%s[%d]", path, i), why)
+		}
+	default:
+		if canonValue(va) != canonValue(vb) {
+			*why = append(*why, fmt.Sprintf("%s: %s vs %s", path, canonValue(va), canonValue(vb)))
+		}
+	}
+}
+
+func c03IndependenceScenario(a *Alpha, ns NamedSkel, focus []string, elems int) mc.Scenario {
+	fm := focusMap(focus)
+	return func(x *mc.X) *mc.Outcome {
+		zh.Reset()
+		c := BuildCase(x, a, ns.S, fm, elems)
+		for u := range fm {
+			if !c.Touched[u] {
+				return &mc.Outcome{Sig: "redundant"}
+			}
+		}
+		run := func(fill func(reflect.Value, *Node), orders [][]int) (reflect.Value, reflect.Value, *Obs, [][]int) {
+			zh.Reset()
+			rec := &Recorder{Light: true}
+			schema := BuildZog(c.Root, rec)
+			dest := reflect.New(c.Root.GoType())
+			fill(dest.Elem(), c.Root)
+			pre := deepCopy(dest.Elem())
+			var got [][]int
+			if orders == nil {
+				installOrderRecorder(x, zh.OrderFree, &got)
+			} else {
+				zh.Install(x, zh.PoolLIFO, zh.OrderSorted)
+				installReplayOrders(orders)
+				got = orders
+			}
+			obs := RunParse(schema, c.Data, dest)
+			zh.Reset()
+			return dest.Elem(), pre, obs, got
+		}
+		da, pa, oa, orders := run(fillSentinel, nil)
+		db, pb, ob, _ := run(fillSentinelB, orders)
+		var why []string
+		cmpDest(c.Root, da, pa, db, pb, "", &why)
+		out := &mc.Outcome{Traces: 2, Nontrivial: c.NDev > 0, Sig: ns.Name + "|" + canonNoTypes(da)}
+		out.LazySample = func() any { return map[string]any{"case": c.Describe(), "destination": canonNoTypes(da)} }
+		if oa.Panic != ob.Panic || !eqStrings(oa.IssueStrings(), ob.IssueStrings()) || len(why) > 0 {
+			d := c.Describe()
+			x.Note("schema: %v", d["schema"])
+			x.Note("input: %v", d["input"])
+			x.Note("visit orders: %v", orders)
+			out.Viol = append(out.Viol, &mc.Violation{Key: "C03:dest-depends-on-prefill:" + ns.Name, What: "the result of Parse depends on what the destination held before the call (stale values survive, or untouched parts are overwritten): " + strings.Join(why, "; "), Expected: fmt.Sprintf("%v %s", oa.IssueStrings(), canonNoTypes(da)), Observed: fmt.Sprintf("%v %s", ob.IssueStrings(), canonNoTypes(db))})
+		}
+		return out
+	}
 }
